@@ -68,6 +68,7 @@ LEVEL_NOTE = ('stream_injective_partial: full injectivity needs the number of ge
 SIG_F10 = 'cache-key-marshal-string-flags'
 SIG_ENC = 'cache-key-encoding-dtype-overrides-dtype'
 SIG_PUN = 'cache-key-attr-type-erased'
+SIG_TWO = 'cache-key-ugrid-two-dimension-guess'
 
 
 # --------------------------------------------------------------------------
@@ -200,6 +201,22 @@ class Eval:
                 for n in self.state['expected'] if n in self.ds.variables}
 
 
+def two_dimension_guess_wrong(e: Eval) -> bool:
+    """UGRID: `Mesh2DTopology.two_dimension` is 'Two' if that is a dimension of size 2, else the FIRST dimension
+    of size 2 of the whole dataset.  True when that guess is not a dimension of the edge tables the generator
+    built, so that they are (wrongly) judged invalid and silently left out of the inventory."""
+    if e.state['conv'] != 'ugrid':
+        return False
+    sizes = dict(e.ds.sizes)
+    guess = 'Two' if sizes.get('Two') == 2 else next((d for d, n in e.ds.sizes.items() if n == 2), 'Two')
+    roles = K._ugrid_role_names(e.ds, e.state)
+    for role in ('edge_node_connectivity', 'edge_face_connectivity'):
+        name = roles.get(role)
+        if role in e.state['valid_roles'] and name in e.ds.variables and guess not in e.ds.variables[name].dims:
+            return True
+    return False
+
+
 def flags_only_difference(a: Eval, b: Eval) -> list:
     """geometry variables whose attributes are content-equal in a and b but marshal differently"""
     out = []
@@ -235,6 +252,8 @@ def nongeo_edit_sets(rng, ev: Eval) -> list:
         E.append(('remove_all_vars', [{'op': 'remove_var', 'name': n} for n in data_vars]))
         E.append(('var_attr', [{'op': 'var_attr', 'name': dv, 'key': 'note', 'value': 'changed ' * rng.randint(1, 3)}]))
         E.append(('rename_var', [{'op': 'rename_var', 'name': dv, 'to': dv + '_renamed'}]))
+    E.append(('add_var:leading', [{'op': 'prepend_var', 'name': 'lead', 'dim': 'lead_dim', 'n': rng.choice([2, 2, 3]),
+                                   'attrs': {'units': '1'}}]))
     E.append(('time_steps', [{'op': 'time_steps', 'n': rng.choice([1, 2, 4, 5])}]))
     E.append(('time_coord', [{'op': 'time_coord', 'start': float(rng.randint(0, 9)), 'step': 0.5}]))
     E.append(('gattr_add', [{'op': 'gattr', 'key': 'institution', 'value': 'x' * rng.randint(1, 40)}]))
@@ -573,6 +592,11 @@ def base_cases(ctx, rng) -> list:
         if conv == 'ugrid':
             # node / face coordinates as data variables: F8 (coordinates ignored / KeyError) belongs to C06, C10
             kw = {'coords_as': 'vars', 'face_coords': rng.choice([None, 'vars'])}
+            two_dim = rng.choice(['Two', 'Two', 'nMesh2_two'])
+            if d == G.CONVS.index('ugrid'):
+                # the first UGRID base always has edge tables on a size-2 dimension that is not called 'Two'
+                two_dim = 'nMesh2_two'
+                kw['tables'] = rng.choice([['edge_node'], ['edge_node', 'face_edge'], ['edge_node', 'edge_face', 'face_face']])
         elif conv in ('cf1d', 'cf2d', 'shoc_simple'):
             kw = {'coords_as': rng.choice(['coords', 'vars'])}
             if conv != 'cf1d':
@@ -582,6 +606,8 @@ def base_cases(ctx, rng) -> list:
         if ctx.tier == 'quick':
             kw.update({'max_n': 4} if conv != 'ugrid' else {'max_w': 2, 'max_h': 2})
         recipe = G.random_recipe(rng, conv, ctx.tier, **kw)
+        if conv == 'ugrid':
+            recipe['names'] = {'two_dim': two_dim}
         recipe = G.attach_vars(rng, recipe, n_vars=rng.randint(1, 3), dtypes=('f8', 'i4'))
         if conv == 'shoc_simple':
             for vr in recipe['vars']:
@@ -659,7 +685,10 @@ def run(ctx) -> None:
             desc = {'base': bcase, 'edited': case, 'expect': 'same', 'kind': kind}
             ctx.count(f'nongeo:{kind}')
             ctx.nontrivial((tag, 'N', kind, json.dumps(edits, sort_keys=True)))
-            items.append((e.stream_line(), e.stream_out(), {'case': case, 'op': 'stream'}))
+            if not (e.ok and two_dimension_guess_wrong(e)):
+                # (where the known two-dimension finding strikes, the oracle below reports it; the primary model
+                # keeps demanding the tables as built, and is not compared)
+                items.append((e.stream_line(), e.stream_out(), {'case': case, 'op': 'stream'}))
             if not e.ok:
                 ctx.oracle_fail('cache-key-raises-after-nongeometry-edit', desc,
                                 f'{kind}: make_cache_key raised {e.error} (base key {b.key[:16]}…)')
@@ -667,13 +696,18 @@ def run(ctx) -> None:
             g1, c1 = geometry_content(e.ds, e.state)
             if (g1, c1) != (g0, c0):
                 raise AssertionError(f'harness: non-geometry edit {kind} altered the geometry')
+            two = two_dimension_guess_wrong(e)
             if e.names != e.state['expected']:
-                ctx.oracle_fail('inventory-mismatch', desc, f'{kind}: inventory {e.names} != {e.state["expected"]}')
+                ctx.oracle_fail(SIG_TWO if two else 'inventory-mismatch', desc,
+                                f'{kind}: inventory {e.names} != {e.state["expected"]}')
             if e.key != b.key:
                 flagged = flags_only_difference(b, e)
-                ctx.oracle_fail(SIG_F10 if flagged else 'cache-key-nongeometry-edit-changes-key', desc,
+                ctx.oracle_fail(SIG_TWO if two else SIG_F10 if flagged else 'cache-key-nongeometry-edit-changes-key', desc,
                                 f'{kind} changed the key {b.key[:16]}… -> {e.key[:16]}… '
-                                f'(streams differ at {first_diff(b.stream, e.stream)})')
+                                f'(streams differ at {first_diff(b.stream, e.stream)}'
+                                + (f'; inventory {e.names} instead of {e.state["expected"]}' if two else '') + ')')
+            if two:
+                continue        # the model (validity of the tables as built) is the behaviour demanded
             covered[(conv, 'N:' + kind.split(':')[0])] = covered.get((conv, 'N:' + kind.split(':')[0]), 0) + 1
             if rng.random() < 0.12:
                 child_cases.append(case)
@@ -696,7 +730,11 @@ def run(ctx) -> None:
                 # have dimensions (j, i)); the model does not cover the conventions' own validation
                 ctx.count(f'geo-err:{conv}:{kind}')
                 continue
-            items.append((e.stream_line(), e.stream_out(), {'case': case, 'op': 'stream'}))
+            certain = not e.state.get('uncertain')
+            if certain:
+                items.append((e.stream_line(), e.stream_out(), {'case': case, 'op': 'stream'}))
+            else:
+                ctx.count(f'model-not-asked:{conv}:{kind}')
             g1, c1 = geometry_content(e.ds, e.state)
             if kind == 'attr_reorder':
                 reorder_changes[0] += 1
@@ -707,8 +745,9 @@ def run(ctx) -> None:
                 continue
             covered[(conv, 'G:' + kind.split(':')[0])] = covered.get((conv, 'G:' + kind.split(':')[0]), 0) + 1
             # first difference of the two streams: model vs recording
-            items.append((f'diff {b.head()} {e.head()}', first_diff(b.stream, e.stream),
-                          {'base': bcase, 'edited': case, 'op': 'diff'}))
+            if certain:
+                items.append((f'diff {b.head()} {e.head()}', first_diff(b.stream, e.stream),
+                              {'base': bcase, 'edited': case, 'op': 'diff'}))
             if kind == 'value' and e.names == b.names and len(e.stream) == len(b.stream):
                 changed = [k for k in range(len(b.stream)) if b.stream[k] != e.stream[k]]
                 v0 = np.asarray(b.ds.variables[name].values)
